@@ -17,12 +17,15 @@ def make_parser(text=None, files=None, user_models=(), include_cc=True, load_cal
     from decaylanguage import DecFileParser  # noqa: PLC0415
 
     p = DecFileParser(*files) if files else DecFileParser.from_string(text)
-    if grammar_first:      # read-only accessors used before the models are registered
+    if grammar_first is True:      # read-only accessors used before the models are registered
         p.grammar()
         p.grammar_info()
     if load_calls:
-        for call in load_calls:
+        for k, call in enumerate(load_calls):
             p.load_additional_decay_models(*call)
+            if grammar_first is not True and grammar_first is not False and grammar_first == k + 1:
+                p.grammar()        # ... or between two registrations (grammar_first = number of calls made before)
+                p.grammar_info()
     elif user_models:
         p.load_additional_decay_models(*user_models)
     with warnings.catch_warnings(record=True) as w:
